@@ -95,9 +95,14 @@ def generate(ctx):
     gz = tape.boolean("gzip", 1, 3)
     # where the table comes from: the public constructor, or an eager read of a canonical file (then it carries the
     # source file's header as context, which must be written exactly once)
-    source = tape.weighted([(3, "memory"), (1, "eager_read"), (1, "lazy_read")], "source") if rows else "memory"
+    source = tape.weighted([(3, "memory"), (1, "eager_read"), (1, "lazy_read"), (1, "lazy_select"), (1, "eager_select")],
+                           "source") if rows else "memory"
     sc = {"format": fmt.name, "rows": rows, "ops": ops, "gzip": gz, "path": f"/sim/o{fmt.suffix}{'.gz' if gz else ''}",
           "eio_nth": 0, "second": None, "interleaving": [], "source": source}
+    if source in ("lazy_select", "eager_select"):
+        # the table is what is left of a larger file: decoy records in front of some rows are de-selected (integer list
+        # for the first part, boolean mask for the second) and the two selections concatenated
+        sc["select"] = {"decoy_before": [tape.boolean("sel.decoy") for _ in rows], "split": tape.draw(len(rows) + 1, "sel.split")}
     if tape.boolean("eio", 1, 8):
         sc["eio_nth"] = 1 + tape.draw(4, "eio.nth")
     elif tape.boolean("second_writer", 1, 5):
@@ -132,6 +137,8 @@ class Writer:
     def __init__(self, fs, d, fmt, table, cls):
         self.fs, self.d, self.fmt, self.table, self.cls = fs, d, fmt, table, cls
         self.path = d["path"]
+        n = call(len, table)
+        self.n_rows = -1 if raised(n) else n
         self.bt = iosim.resolve(fmt.buffer) if fmt.buffer else None
         self.w = None
         self.error = None
@@ -165,11 +172,12 @@ class Writer:
                 continue
             if op["op"] == "write":
                 a, z = op["piece"]
-                piece = self.table[a:z]
+                # the whole table is handed over as the object itself (no slicing in between), a part as a slice
+                piece = self.table if (a == 0 and z == self.n_rows) else self.table[a:z]
                 r = call(self.w.write, piece)
                 self.rows_written_target = z
             else:
-                parts = [self.table[a:z] for a, z in op["pieces"]]
+                parts = [self.table if (a == 0 and z == self.n_rows) else self.table[a:z] for a, z in op["pieces"]]
                 stream = b.streams.NpDataclassStream(iter(parts), dataclass=self.cls)
                 r = call(self.w.write, stream)
                 self.rows_written_target = op["pieces"][-1][1]
@@ -286,17 +294,37 @@ def execute(ctx, sc):
             table, cls = bt
         else:
             src_style = {"crlf": False, "final_newline": True, "header": bool(fmt.header), "wrap": 60}
-            src_data, _ = T.serialize(fmt, rows, src_style)
+            file_rows, keep = rows, None
+            if source.endswith("_select"):
+                file_rows, keep = [], []
+                for i, r in enumerate(rows):
+                    if sc["select"]["decoy_before"][i]:
+                        file_rows.append(rows[(i + 1) % len(rows)])
+                    keep.append(len(file_rows))
+                    file_rows.append(r)
+            src_data, _ = T.serialize(fmt, file_rows, src_style)
             src_path = "/sim/src" + fmt.suffix
             fs.put(src_path, src_data)
-            spec = iosim.ReaderSpec(fmt, src_path, False, source == "lazy_read", "path")
+            spec = iosim.ReaderSpec(fmt, src_path, False, source.startswith("lazy"), "path")
 
             def read_src():
+                import numpy as np
                 r = iosim.open_reader(spec)
                 try:
-                    return r.read()
+                    t = r.read()
                 finally:
                     r.close()
+                if keep is None:
+                    return t
+                a = sc["select"]["split"]
+                parts = []
+                if keep[:a]:
+                    parts.append(t[list(keep[:a])])
+                if keep[a:]:
+                    mask = np.zeros(len(file_rows), dtype=bool)
+                    mask[keep[a:]] = True
+                    parts.append(t[mask])
+                return parts[0] if len(parts) == 1 else np.concatenate(parts)
             table = call(read_src)
             if raised(table):
                 raise Inconclusive("source read raises: " + table.type)
